@@ -72,7 +72,34 @@ CLAIM = {
             'and pickle round trips changed further, parent changed after the child was derived — oracle robust.derived; '
             'in the model states are values, so independence holds by construction. R14 (counts 257 / 258 / 300 / 65537 '
             'distances, angles, wall-count arrays and setter calls): oracle robust.bigcount + three N >= 257 histories '
-            'in every correspondence run; all theorems are for unbounded lists / histories. An exception raised by the '
+            'in every correspondence run; all theorems are for unbounded lists / histories. '
+            'R15 (distinct values that are merely close — what an np.isclose / rounded-key / absolute-threshold shortcut '
+            'would identify): the four places where the code compares or stores by value — the zero test of the '
+            'negative-loss policy, the Okumura-Hata guards, the large-city fc > 300 switch, the setters that recompute a '
+            'constant — and every query argument. Theorems policy_has_no_dead_zone (a loss of +eps dB is returned as it '
+            'is, -eps raises / clamps, for every eps > 0), policy_identifies_no_two_losses, '
+            'close_distances_are_distinguished (strictly monotone, hence injective, in the distance for every model), '
+            'setter_takes_effect_for_every_new_value (= a fresh object with exactly that value; distinct carrier '
+            'frequencies give distinct losses), oh_guards_and_switch_compare_exactly. Oracle robust.close (model-free: '
+            'fresh object given exactly that value, getter returns the value set, LOCAL SENSITIVITY — the change between '
+            'x and x(1+delta), delta = 1e-6 / 3e-9, is the change over a 1e-3 step scaled by the steps — for setter values, '
+            'distances, losses, linear losses 1e-9..1e-15, angles, dB conversions; exactly representable losses of '
+            '+-1e-9..+-5e-324 dB at d = 1; distances a relative 1e-6 / 1e-9 on either side of the zero-loss distance, margin '
+            '>= 1e3 rounding errors from the code\'s own deterministic value; adjacent doubles at every guard bound and at '
+            '300 MHz) + correspondence streams corr:R15:* (the compiled model is given exactly those values; tiny exact '
+            'losses compared bit for bit, near-threshold losses relative to their own size). '
+            'R16 (argument identity and buffer reuse): oracle robust.buffer — ONE ndarray (1-D, 2-D, column, 0-d, int64, '
+            'float32, Fortran, strided) / list / extra_args dict refilled in place before each of 2-4 calls of every public '
+            'entry point taking such an argument (calc_path_loss_dB, calc_path_loss, which_distance_dB, which_distance, '
+            '_calc_deterministic_path_loss_dB, plot helper, PS7 with a wall-count array buffer, get_antenna_gain of both '
+            'antenna classes, dB2Linear, linear2dB), for every object kind: the k-th answer equals bit for bit that of a '
+            'freshly built object on a copy of the contents, the argument is unchanged, earlier answers do not change when '
+            'the buffer is refilled or modified after the call, results share no memory, an equal-content copy gives the '
+            'same answer; the same array as distance AND wall count, the same array through two methods / two objects, '
+            'distance -> loss -> distance through one buffer. Correspondence corr:R16:* (every array op of a history uses one '
+            'buffer per shape; the model receives the logical contents). Model side: caller machine CallerOp (refill / '
+            'setter / call), theorems caller_earlier_answers_never_change, '
+            'caller_answer_is_fresh_object_on_current_contents. An exception raised by the '
             'library while a history or oracle case is being prepared is reported as a failing input (call '
             'history.exception), never as a harness error. Defects '
             'fixed: PS7 which_distance_dB was `pass`; integer-dtype / list distances (reduced precision, TypeError '
@@ -310,6 +337,29 @@ def make_array(values, fmt, dtype_default='float64'):
     raise ValueError(lay)
 
 
+_make_array, _make_walls = make_array, None      # (run_impl shadows the two names with buffer-aware versions)
+
+
+def refill_buffer(bufs, values, fmt):
+    """R16: the caller's preallocated array (or list) `fmt['buf']`, refilled in place with `values`"""
+    dt = fmt.get('dtype', 'float64')
+    lay = fmt.get('layout', 'C')
+    shape = tuple(fmt.get('shape', [len(values)]))
+    key = (fmt['buf'], lay, dt, shape)
+    if lay == 'list':
+        if key not in bufs:
+            bufs[key] = []
+        bufs[key][:] = [int(v) if dt.startswith(('int', 'uint')) else float(v) for v in values]
+        return bufs[key]
+    if key not in bufs:
+        if lay == 'stride2':
+            bufs[key] = np.zeros(shape[:-1] + (2 * shape[-1],), dtype=dt)[..., ::2]
+        else:
+            bufs[key] = np.zeros(shape, dtype=dt, order='F' if lay == 'F' else 'C')
+    bufs[key][...] = np.array(values, dtype=float).astype(dt).reshape(shape)
+    return bufs[key]
+
+
 def fmt_tolerance(fmt):
     """(relative tolerance factor for dB values, for positive linear values)"""
     dt = (fmt or {}).get('dtype', (fmt or {}).get('stype', 'float64'))
@@ -407,6 +457,9 @@ def make_walls(nws, fmt):
         return np.broadcast_to(np.array(nws, dtype=wdt), tuple(fmt['shape']))
     a = make_array(nws, {k: v for k, v in fmt.items() if k in ('shape', 'layout')}, 'int64')
     return a.astype(wdt) if fmt.get('layout', 'C') == 'C' else a
+
+
+_make_walls = make_walls
 
 
 # ---- public calls that are NOT setters (R7): plot helpers, representations, copies, getters, helper methods
@@ -544,6 +597,20 @@ def run_impl(case):
     kind = case['kind']
     res = []
     warnings.simplefilter('ignore')
+    bufs = {}
+
+    def make_array(values, fmt, dtype_default='float64'):
+        # R16: ops marked {'buf': name} hand the code ONE array / list object per name, refilled in place
+        if fmt and fmt.get('buf'):
+            return refill_buffer(bufs, values, fmt)
+        return _make_array(values, fmt, dtype_default)
+
+    def make_walls(nws, fmt):
+        if fmt and fmt.get('same'):
+            return refill_buffer(bufs, nws, fmt)            # the SAME object as the distances
+        if fmt and fmt.get('buf'):
+            return refill_buffer(bufs, nws, dict(fmt, buf=fmt['buf'] + ':walls', dtype='int64'))
+        return _make_walls(nws, fmt)
     for op in case['ops']:
         op, fmt = split_fmt(op)
         name = op[0]
@@ -681,6 +748,10 @@ def compare(case, impl, model_line):
         op, fmt = split_fmt(op)
         rel = op[0] in LINEAR_OPS
         tol = fmt_tolerance(fmt)[1 if rel else 0]
+        if fmt and fmt.get('exact'):
+            rel, tol = True, 0.0          # R15: exactly representable tiny losses: bit for bit
+        elif fmt and fmt.get('reltol'):
+            rel, tol = True, fmt['reltol']    # R15: a tiny loss next to the threshold: relative to ITS size
         if isinstance(a, str):
             ok = (a == t)
         elif isinstance(a, float):
@@ -1093,6 +1164,11 @@ def correspondence(ctx, n_cases, hist_len, depth):
         q = ['dba', 2, vals] if kind == 'ps7' else ['dba', vals]
         big.append({'kind': kind, 'ctor': None, 'ops': hist + [['small', 1], ['shadow', 0], q, ['flags']]})
         ctx.branch('corr:R14:N>=257')
+    x = _r15r16()
+    n_x = 120 if n_cases < 10000 else 4000
+    close = x.corr_close_cases(ctx, rng.fork('R15'), n_x)
+    reuse = x.corr_buffer_cases(ctx, rng.fork('R16'), n_x)
+    big = big + close + reuse
     enum = enumerated_cases(depth)
     ctx.branch('enumerated-histories', len(enum))
     ctx.extra['enumerated_setter_histories'] = {'depth': depth, 'count': len(enum)}
@@ -2295,6 +2371,14 @@ ORACLES = {
 }
 
 
+def _r15r16():
+    """R15 / R16 live in harness/props/c13_r15r16.py"""
+    from harness.props import c13_r15r16
+    for k_, v_ in c13_r15r16.ORACLES.items():
+        ORACLES.setdefault(k_, v_)
+    return c13_r15r16
+
+
 def run_oracle(ctx, call, case, nontrivial=True):
     ctx.count((call, repr(case)), nontrivial)
     try:
@@ -2310,6 +2394,7 @@ def run_oracle(ctx, call, case, nontrivial=True):
 
 
 def replay(ctx, rep):
+    _r15r16()
     return ORACLES[rep['call']](rep['case']) is not None
 
 
@@ -2690,11 +2775,15 @@ def check(ctx):
                 '(1,N), 2-D, 3-D) and memory layout (C, Fortran, transposed, reversed, strided, broadcast, list, '
                 'tuple) of the same logical values; R1-R7 oracles per model kind (typed/shaped twins vs float64 scalar '
                 'queries under both policies, input snapshots, rejected calls, boundary values, scales 1e-12..1e12, '
-                'shared / long-lived objects); non-trivial = distinct history with >= 2 non-flag operations / '
-                'distinct oracle case')
+                'shared / long-lived objects); R15: setter values, distances, losses, linear losses, angles and their '
+                'neighbours at relative 1e-6, 3e-9, 1.3e-12 and one ulp, magnitudes down to 1e-15, exact losses of '
+                '+-1e-9..+-5e-324 dB, both sides of the zero-loss distance / guard bounds / 300 MHz; R16: one argument '
+                'array / list / dict refilled in place over 2-4 calls, same object in two roles; non-trivial = distinct '
+                'history with >= 2 non-flag operations / distinct oracle case')
     quick = ctx.tier == 'quick'
     n_corr, n_or, hist, depth = (3300, 1200, 12, 2) if quick else (150000, 60000, 40, 3)
     n_rob = 400 if quick else 6000
+    _r15r16()
     core.prove(ctx, MODULE, generated=['C13Constants'], drivers=[DRIVER], scratch=ctx.scratch)
     ctx.required_branches = ['policy:raise-scalar', 'policy:raise-array', 'policy:clamp-scalar',
                              'policy:clamp-array', 'oh:which_distance-not-offered', 'ps7:los', 'ps7:nlos',
@@ -2713,8 +2802,10 @@ def check(ctx):
     corpus_oracles(ctx)
     oracles(ctx, n_or, hist)
     robust_oracles(ctx, n_rob, hist)
+    x = _r15r16()
+    x.run(ctx, 250 if quick else 8000, 250 if quick else 8000, hist)
     if ctx.required_branches:
-        ctx.required_branches = ctx.required_branches + ROBUST_REQUIRED
+        ctx.required_branches = ctx.required_branches + ROBUST_REQUIRED + x.REQUIRED + x.CORR_REQUIRED
 
 
 def search(ctx):
